@@ -204,6 +204,32 @@ theorem heap_merge_abs_closed (o : ListStrategy) (h : Heap) (hc : h.Closed) (ran
       obtain ⟨h', r, hm, e1, e2, e3⟩ := heap_merge_abs o (d + 1) h hnil c1 c2 a b hn1 hn2
       exact ⟨a, b, h', r, hn1, hn2, hm, e1, e2, e3⟩
 
+/-- The driver's entry points (`mergeContainers`, `abs`: fuel = heap size): on every closed
+    acyclic heap the merge of any two container cells succeeds and refines the value-level merge. -/
+theorem heap_merge_total (o : ListStrategy) (h : Heap) (hc : h.Closed) (hac : h.Acyclic)
+    (hnil : h.NilOk) (c1 c2 : Addr) (ka kb : AMap Addr)
+    (h1 : h.get? c1 = some (.cont ka)) (h2 : h.get? c2 = some (.cont kb)) :
+    ∃ a b h' r, abs h c1 = some (.cont a) ∧ abs h c2 = some (.cont b) ∧
+      mergeContainers o h c1 c2 = some (h', r) ∧
+      abs h' r = some (.cont (mergeC o a b)) ∧
+      abs h' c1 = some (.cont a) ∧ abs h' c2 = some (.cont b) := by
+  obtain ⟨n1, hn1⟩ := abs_defined hc hac (Heap.get?_lt h1)
+  obtain ⟨n2, hn2⟩ := abs_defined hc hac (Heap.get?_lt h2)
+  have k1 := absH_kind hn1 h1
+  have k2 := absH_kind hn2 h2
+  cases n1 with
+  | leaf _ => simp [Node.isCont, Cell.isCont] at k1
+  | list _ => simp [Node.isCont, Cell.isCont] at k1
+  | cont a =>
+    cases n2 with
+    | leaf _ => simp [Node.isCont, Cell.isCont] at k2
+    | list _ => simp [Node.isCont, Cell.isCont] at k2
+    | cont b =>
+      obtain ⟨h', r, hm, e1, e2, e3⟩ := heap_merge_abs o h.size h hnil c1 c2 a b hn1 hn2
+      have hsz := Heap.size_le_of_le (mergeContainersF_le hm)
+      exact ⟨a, b, h', r, hn1, hn2, hm, absH_fuel_le hsz e1, absH_fuel_le hsz e2,
+        absH_fuel_le hsz e3⟩
+
 /-- SHARING: on a closed heap the result root is a newly allocated cell, and every cell
     reachable from it is either newly allocated, or reachable from A, or reachable from B, or
     the shared nil leaf (what `coalesce` returns when neither side has a value) — nothing else.
